@@ -115,6 +115,16 @@ public:
     virtual void handle_warning(const TypeException&) = 0;
 
     /**
+     * Called before and after the parse of each block of text (a
+     * label, a declaration block, a whole file). The builder must
+     * drop whatever productions discarded by error recovery left
+     * behind (if \a success is false the parse was abandoned
+     * altogether), so that the following blocks are not affected.
+     */
+    virtual void parse_begin() {}
+    virtual void parse_end(bool success) {}
+
+    /**
      * Must return true if and only if name is registered in the
      * symbol table as a named type, for instance, "int" or "bool" or
      * a user defined type.
